@@ -42,9 +42,14 @@ impl Tier {
     }
     /// pick a work amount by tier
     pub fn pick(&self, quick: u32, thorough: u32) -> u32 {
-        match self {
+        let n = match self {
             Tier::Quick => quick,
             Tier::Thorough => thorough,
+        };
+        // development aid: VERIF_SCALE=<percent> scales every work amount (never set by the registered commands)
+        match std::env::var("VERIF_SCALE").ok().and_then(|s| s.parse::<u64>().ok()) {
+            Some(pct) => ((n as u64 * pct / 100).max(1)) as u32,
+            None => n,
         }
     }
 }
@@ -157,6 +162,7 @@ pub struct Check {
     verif_root: PathBuf,
     required_labels: Vec<String>,
     max_samples: usize,
+    shrink_iters: u32,
 }
 
 thread_local! {
@@ -292,6 +298,7 @@ impl Check {
             verif_root,
             required_labels: vec![],
             max_samples: 12,
+            shrink_iters: 1500,
         }
     }
 
@@ -306,6 +313,10 @@ impl Check {
     /// labels that must have been observed at least once, otherwise the run is inconclusive (exit 2)
     pub fn require_label(&mut self, l: &str) -> &mut Self {
         self.required_labels.push(l.to_string());
+        self
+    }
+    pub fn shrink_iters(&mut self, n: u32) -> &mut Self {
+        self.shrink_iters = n;
         self
     }
     pub fn is_replay(&self) -> bool {
@@ -398,10 +409,10 @@ impl Check {
 
     /// A randomized section: `cases` generated inputs (split over the worker threads), each evaluated by `f`.
     /// In replay mode only the section named in the replay file runs, once, on the saved case.
-    pub fn section<C, S>(&self, name: &str, strategy: S, cases: u32, f: impl Fn(&C) -> Report + Sync)
+    pub fn section<C, S>(&self, name: &str, make_strategy: impl Fn() -> S + Sync, cases: u32, f: impl Fn(&C) -> Report + Sync)
     where
         C: Debug + Clone + Serialize + DeserializeOwned + Send,
-        S: Strategy<Value = C> + Sync,
+        S: Strategy<Value = C>,
     {
         if let Some((_, rv)) = &self.replay {
             if rv.get("section").and_then(|s| s.as_str()) != Some(name) {
@@ -431,10 +442,11 @@ impl Check {
         std::thread::scope(|scope| {
             for t in 0..threads {
                 let f = &f;
-                let strategy = &strategy;
+                let make_strategy = &make_strategy;
                 scope.spawn(move || {
                     let seed = mix(mix(self.seed, fnv(name)), t as u64);
-                    self.run_one_runner(name, strategy, per, seed, f);
+                    let strategy = make_strategy();
+                    self.run_one_runner(name, &strategy, per, seed, f);
                 });
             }
         });
@@ -458,7 +470,7 @@ impl Check {
         let config = Config {
             cases,
             failure_persistence: None,
-            max_shrink_iters: 2000,
+            max_shrink_iters: self.shrink_iters,
             max_global_rejects: 100_000,
             rng_seed: RngSeed::Fixed(seed),
             ..Config::default()
